@@ -1,3 +1,4 @@
+import json
 import urllib
 
 from . import packet
@@ -20,11 +21,12 @@ class Payload:
                 encoded_payload += '\x1e'
             encoded_payload += pkt.encode(b64=True)
         if jsonp_index is not None:
+            # a JSON string is also a valid JavaScript string literal
             encoded_payload = '___eio[' + \
                               str(jsonp_index) + \
-                              ']("' + \
-                              encoded_payload.replace('"', '\\"') + \
-                              '");'
+                              '](' + \
+                              json.dumps(encoded_payload) + \
+                              ');'
         return encoded_payload
 
     def decode(self, encoded_payload):
